@@ -20,7 +20,8 @@ def _canon(nnx, root):
         return ('ref', ids[id(x)])
       ids[id(x)] = len(ids)
       md = tuple(sorted((k, repr(v)) for k, v in x.get_metadata().items() if not k.endswith('_hooks')))
-      return ('var', ids[id(x)], type(x).__name__, repr(x.value if not hasattr(x.value, 'tolist') else x.value.tolist()), md)
+      lst = lambda a: repr(a if not hasattr(a, 'tolist') else a.tolist())
+      return ('var', ids[id(x)], type(x).__name__, lst(x.raw_value), lst(x.value), md)
     if isinstance(x, nnx.Module):
       if id(x) in ids:
         return ('ref', ids[id(x)])
@@ -90,7 +91,25 @@ def _graphs(nnx):
     m.a = {'b': v, 'a': [v, v]}
     m.me = m
     return m
-  return dict(tree=g_tree, shared_var=g_shared_var, shared_module=g_shared_module, cycle=g_cycle, dict_order=g_dict_order, var_cycle_shared=g_var_cycle_shared)
+  def g_hooked_var():
+    m = M()
+    m.a = nnx.Param(jnp.array(1.0), on_get_value=lambda var, v: v + 3.0)     # value seen through a hook differs from the stored value
+    m.sub = M()
+    m.sub.b = nnx.BatchStat(jnp.array(2.0))
+    return m
+
+  import collections
+  Pair = collections.namedtuple('Pair', ['left', 'right'])
+
+  def g_namedtuple():
+    m = M()
+    a, b = M(), M()
+    a.w = nnx.Param(jnp.array(1.0))
+    b.v = nnx.BatchStat(jnp.array(2.0))
+    m.pair = Pair(a, b)         # a tuple subclass holding sub-modules
+    m.also = b                  # ... one of them reachable another way too
+    return m
+  return dict(hooked_var=g_hooked_var, namedtuple=g_namedtuple, tree=g_tree, shared_var=g_shared_var, shared_module=g_shared_module, cycle=g_cycle, dict_order=g_dict_order, var_cycle_shared=g_var_cycle_shared)
 
 
 def _first_paths(nnx, root):
@@ -112,6 +131,9 @@ def _first_paths(nnx, root):
     elif isinstance(x, dict):
       for k in sorted(x):
         walk(x[k], path + (k,))
+    elif isinstance(x, tuple) and hasattr(x, '_fields'):
+      for k in sorted(x._fields):          # named tuples flatten by field name (jax key paths)
+        walk(getattr(x, k), path + (k,))
     elif isinstance(x, (list, tuple)):
       for i, v in enumerate(x):
         walk(v, path + (i,))
@@ -207,7 +229,7 @@ def run(tier, seed):
         msg = f'raised {e!r} ' + traceback.format_exc()[-300:]
       if msg:
         fails.append(dict(inputs=dict(graph=name, check=what), observed=msg[:500], violated=what))
-  return dict(name=NAME, cases=cases, distinct=cases, bound='6 object graphs (tree, shared Variable, shared Module, cycles, non-alphabetical dict, Variable shared across a cycle) x split/merge/state/clone/update/pop',
+  return dict(name=NAME, cases=cases, distinct=cases, bound='8 object graphs (tree, shared Variable, shared Module, cycles, non-alphabetical dict, Variable shared across a cycle, Variable with a get-value hook, named tuple of sub-modules) x split/merge/state/clone/update/pop',
               failures=fails, error=None)
 
 
